@@ -122,6 +122,7 @@ OpFails(mb, uop, res, o, po, exact, drift) ==
           Fail(r.ok /\ r.idx = m2.acked, "C20:decode-equals-history"),
           IF uop.op \in {"reopen", "ckpt"} THEN Fail(Stable(o, po), "C02:changed-by-" \o uop.op) ELSE {},
           IF uop.op = "abort" THEN Fail(Stable(o, po) /\ DiskSame(o.disk, po.disk), "C13:abort-left-trace") ELSE {},
+          IF uop.op = "rddrain" THEN Fail(res.ok /\ res.val = ResVal(m2), "C06:reader-did-not-stream-the-original-content") ELSE {},
           IF drift THEN Fail(d = DiskOf(m2), "DRIFT:disk-after-op") ELSE {},
           IF drift THEN Fail(o.ixsz = o.disk.ixfile, "DRIFT:index-size-stat") ELSE {}
         }
